@@ -81,16 +81,21 @@ pub(crate) mod proofs {
                 assert!(counters_are(&q, FsState { len: s.len + 1, ..s }),   "accepted: seq' = seq.push(x), head unchanged");
                 let idx = (s.origin.wrapping_add(s.len)) as usize % N;
                 assert!(after[idx] == x,                                     "accepted: payload stored at the tail slot");
-                let k: usize = kani::any(); kani::assume(k < N && k != idx);
-                assert!(after[k] == before[k],                               "accepted: frame - no other slot written");
+                let k: usize = kani::any();
+                if k < N && k != idx {
+                    assert!(after[k] == before[k],                               "accepted: frame - no other slot written");
+                }
             } else {
                 kani::cover!(true, "reject with a full queue");
                 assert!(rejected == Some(x),                                 "rejected: payload handed back unchanged");
                 assert!(len_after.is_none(),                                 "rejected: no length reported");
                 assert!(counters_are(&q, s),                                 "rejected: head and tail unchanged (C16 frame)");
-                let k: usize = kani::any(); kani::assume(k < N);
-                assert!(after[k] == before[k],                               "rejected: buffer unchanged");
+                let k: usize = kani::any();
+                if k < N {
+                    assert!(after[k] == before[k],                               "rejected: buffer unchanged");
+                }
             }
+            kani::cover!(true, "end of harness reachable (vacuity guard)");
         }
 
         // @props C01 C02 C15 C16
@@ -115,17 +120,22 @@ pub(crate) mod proofs {
                 assert!(counters_are(&q, FsState { len: s.len + 1, ..s }),   "accepted: seq' = seq.push(x)");
                 let idx = (s.origin.wrapping_add(s.len)) as usize % N;
                 assert!(after[idx] == x,                                     "accepted: setter wrote the tail slot");
-                let k: usize = kani::any(); kani::assume(k < N && k != idx);
-                assert!(after[k] == before[k],                               "accepted: frame");
+                let k: usize = kani::any();
+                if k < N && k != idx {
+                    assert!(after[k] == before[k],                               "accepted: frame");
+                }
             } else {
                 assert!(ret.is_some(),                                       "rejected: setter handed back");
                 assert!(setter_calls.get() == 0,                             "rejected: setter un-invoked");
                 assert!(report_calls.get() == 0,                             "rejected: no length reported");
                 assert!(full_calls.get() == 1,                               "rejected: full reported once, no retry when it answers false");
                 assert!(counters_are(&q, s),                                 "rejected: counters unchanged");
-                let k: usize = kani::any(); kani::assume(k < N);
-                assert!(after[k] == before[k],                               "rejected: buffer unchanged");
+                let k: usize = kani::any();
+                if k < N {
+                    assert!(after[k] == before[k],                               "rejected: buffer unchanged");
+                }
             }
+            kani::cover!(true, "end of harness reachable (vacuity guard)");
         }
 
         // @props C01 C02 C15 C13 C10
@@ -143,8 +153,11 @@ pub(crate) mod proofs {
                 assert!(got.is_none(),                                       "empty: None");
                 assert!(counters_are(&q, s),                                 "empty: counters unchanged");
             }
-            let k: usize = kani::any(); kani::assume(k < N);
-            assert!(after[k] == before[k],                                   "consume never writes the buffer");
+            let k: usize = kani::any();
+            if k < N {
+                assert!(after[k] == before[k],                                   "consume never writes the buffer");
+            }
+            kani::cover!(true, "end of harness reachable (vacuity guard)");
         }
 
         // @props C02 C15 C16
@@ -154,6 +167,7 @@ pub(crate) mod proofs {
             assert!(q.available_elements_count() == s.len as usize,          "pending count == |seq|");
             assert!(q.max_size() == N,                                       "max_size == BUFFER_SIZE");
             assert!(counters_are(&q, s) && !locked(&q),                      "query changes nothing");
+            kani::cover!(true, "end of harness reachable (vacuity guard)");
         }
 
         // @props C01 C15 C16 C20
@@ -182,8 +196,11 @@ pub(crate) mod proofs {
                 assert!(counters_are(&q, s),                                 "leak at capacity: unchanged");
             }
             let after = buffer_of(&q);
-            let k: usize = kani::any(); kani::assume(k < N);
-            assert!(after[k] == before[k],                                   "leak/publish_leaked never write the buffer");
+            let k: usize = kani::any();
+            if k < N {
+                assert!(after[k] == before[k],                                   "leak/publish_leaked never write the buffer");
+            }
+            kani::cover!(true, "end of harness reachable (vacuity guard)");
         }
 
         // @props C13
@@ -194,6 +211,7 @@ pub(crate) mod proofs {
             let r = q.slot_ref_from_slot_index(i);
             assert!(*r == before[i as usize],                                "ref_from_index yields buffer[i]");
             assert!(q.slot_index_from_slot_ref(r) == i,                      "index_from_ref(ref_from_index(i)) == i");
+            kani::cover!(true, "end of harness reachable (vacuity guard)");
         }
 
         // @props C01 C10
@@ -206,6 +224,7 @@ pub(crate) mod proofs {
             let expected = before[(s.origin.wrapping_add(k as u32)) as usize % N];
             let got = if k < a.len() { a[k] } else { b[k - a.len()] };
             assert!(got == expected,                                         "peek: concatenation equals seq");
+            kani::cover!(true, "end of harness reachable (vacuity guard)");
         }
     } )* } }
 
@@ -254,6 +273,7 @@ pub(crate) mod proofs {
             assert!(DROPS.load(SeqCst) == base + c,                          "each consumed payload dropped once by its owner");
             drop(q);
             assert!(DROPS.load(SeqCst) == base + len,                        "teardown drops exactly the leftovers, once each; initial filler slots are never dropped");
+            kani::cover!(true, "end of harness reachable (vacuity guard)");
         }
     } )* } }
     fs_drop_proofs! {
